@@ -66,6 +66,12 @@ Op(t, St, e) ==
                                      k, "false", e.now).S,
                         ret |-> RInt(v0 + e.a.d), judged |-> TRUE]
          [] e.op = "clear" -> [S |-> Clear(St).S, ret |-> RNone, judged |-> FALSE]
+         \* extensions of DjangoCache that forward to the sharded cache
+         [] e.op = "settag" -> [S |-> Set(St, k, e.a.v, 0, Ttl(t, e.a.tm), e.a.tag, e.now).S, ret |-> RNone, judged |-> FALSE]
+         \* (their counts depend on how many expired items earlier writes already removed lazily: not judged; what they
+         \*  leave behind is judged by the lookups that follow)
+         [] e.op = "evict" -> [S |-> Evict(St, e.a.tag).S, ret |-> RNone, judged |-> FALSE]
+         [] e.op \in {"expire", "cull"} -> [S |-> Expire(St, e.now).S, ret |-> RNone, judged |-> FALSE]
          [] e.op = "tick" -> [S |-> St, ret |-> RNone, judged |-> FALSE]
          [] OTHER -> [S |-> St, ret |-> R("unknown-op", <<>>), judged |-> TRUE]
 
